@@ -6,6 +6,7 @@ import (
 
 	"github.com/tidwall/btree"
 	"github.com/tidwall/geojson"
+	"github.com/tidwall/geojson/geo"
 	"github.com/tidwall/geojson/geometry"
 	"github.com/tidwall/rtree"
 	"github.com/tidwall/tile38/internal/deadline"
@@ -428,6 +429,23 @@ func (c *Collection) ScanGreaterOrEqual(id string, desc bool,
 	return keepon
 }
 
+// searchRect returns the rectangle to search the index with for an area. A
+// circle is stored as a polygon of 64 steps, whose bounding box does not reach
+// the east and west extremes of the circle itself (by little at low latitudes,
+// by degrees near the poles), while the test applied to the candidates is the
+// exact distance to the center. Use the rectangle around the real circle.
+func searchRect(obj geojson.Object) geometry.Rect {
+	rect := obj.Rect()
+	if circle, ok := obj.(*geojson.Circle); ok && circle.Meters() > 0 {
+		center := circle.Center()
+		minLat, minLon, maxLat, maxLon :=
+			geo.RectFromCenter(center.Y, center.X, circle.Meters())
+		rect.Min.X, rect.Min.Y = math.Min(rect.Min.X, minLon), math.Min(rect.Min.Y, minLat)
+		rect.Max.X, rect.Max.Y = math.Max(rect.Max.X, maxLon), math.Max(rect.Max.Y, maxLat)
+	}
+	return rect
+}
+
 func (c *Collection) geoSearch(
 	rect geometry.Rect,
 	iter func(o *object.Object) bool,
@@ -542,7 +560,7 @@ func (c *Collection) Within(
 			return match, ok
 		})
 	}
-	return c.geoSearch(obj.Rect(), func(o *object.Object) bool {
+	return c.geoSearch(searchRect(obj), func(o *object.Object) bool {
 		count++
 		if count <= offset {
 			return true
@@ -583,7 +601,7 @@ func (c *Collection) Intersects(
 			return match, ok
 		})
 	}
-	return c.geoSearch(gobj.Rect(), func(o *object.Object) bool {
+	return c.geoSearch(searchRect(gobj), func(o *object.Object) bool {
 		count++
 		if count <= offset {
 			return true
